@@ -33,6 +33,11 @@ def main(nq, ne, maxlen, out):
             rows.append({'t': 'edge', 'e': list(e), 'f': list(f), 'eq': bool(E == F), 'hash_eq': hash(E) == hash(F),
                          'in_set': bool(E in {F}), 'probe': list(range(ne)),
                          'has': [bool(E.contains(QubitIDObj(names[x]))) for x in range(ne)]})
+    # degenerate edges (both ends the same qubit), separately constructed: equal iff it is the same qubit
+    for x in range(ne):
+        for y in range(ne):
+            A, B = EdgeIDObj(QubitIDObj(names[x]), QubitIDObj(names[x])), EdgeIDObj(QubitIDObj(str(names[y])), QubitIDObj(str(names[y])))
+            rows.append({'t': 'selfedge', 'x': x, 'y': y, 'eq': bool(A == B), 'hash_eq': hash(A) == hash(B), 'in_set': bool(A in {B})})
     for x in range(ne):
         for y in range(ne):
             X, Y = QubitIDObj(names[x]), QubitIDObj(str(names[y]))
